@@ -1,5 +1,6 @@
 import IgVerif.Schema
 import IgVerif.Model.ConfB
+import IgVerif.Model.Closed
 /-! `igdriver <model>`: reads one op per line on stdin, prints one answer per line.
 Byte strings are hex ("-" = empty). -/
 open IgVerif
@@ -150,6 +151,20 @@ def dbStep (s : St) (toks : List String) : IO (St × String) := do
     let f := s.db.toFile (parseInt fid) (unhex lib) (unhex hash) (unhex mod)
     return (s, if fileConfB curMinor c.sch f then "1" else "0")
   | ["sweepall", _, _] => return (s, "ok")
+  | ["closed"] =>
+    let s := s.checkLatest c
+    return (s, s!"dangling={(s.db.danglingRefs c.sch Gen.indexMembers).length} enum={s.db.danglingEnums.length}")
+  | ["consec", first] =>
+    let s := s.checkLatest c
+    return (s, if consecutiveFrom (parseInt first) (s.db.wrappers.map (·.1)) then "1" else "0")
+  | ["links"] =>
+    let s := s.checkLatest c
+    let b (x : Bool) := if x then "1" else "0"
+    return (s, s!"wrapper={b (s.db.wrapperLinksB c.sch)} nesting={b (s.db.nestingLinksB c.sch)} unique={b (s.db.uniqueNamesDistinctB c.sch)}")
+  | ["remap", first] =>
+    let s := s.checkLatest c
+    let (db, _) := s.db.remapIndices c.sch c.rc (parseInt first)
+    return ({ s with db := db }, toString db.nextIndex)
   | _ => return (s, "bad-op")
 
 partial def loop {σ : Type} (h : IO.FS.Stream) (step : σ → List String → IO (σ × String)) (s : σ) : IO Unit := do
